@@ -257,7 +257,8 @@ def main():
         for v in r["viol"]:
             sig = re.sub(r"\d+", "N", v["detail"] if "detail" in v else str(v.get("labels")))[:80]
             m = re.search(r"\[-Werror=([a-z-]+)\]", v.get("detail", ""))
-            if prog.get("origin") == "const-corner" and v["kind"] == "compiler-rejects" and m:
+            if v["kind"] == "compiler-rejects" and m and (prog.get("origin") == "const-corner" or
+                                                         m.group(1) in ("shift-count-overflow", "overflow", "bool-compare", "tautological-compare")):
                 sig = None
                 ck.report(f"gcc-warning-on-constant-expression/{m.group(1)}", f"{r['name']} [{v['cfg']}]: accepted, and the generated C does not compile under -Wall -Werror: {v['detail']}",
                           {"program": prog["src"], **v})
